@@ -111,19 +111,25 @@ def hexPrefixVal : Bytes → Nat → Nat
     | some v => hexPrefixVal t (acc * 16 + v)
     | none => acc
 
+/-- optional sign of `strtoul` -/
+def splitSign (s : Bytes) : Bool × Bytes :=
+  match s with
+  | 45 :: t => (true, t)
+  | 43 :: t => (false, t)
+  | _ => (false, s)
+
+/-- optional `0x` / `0X` prefix of `strtoul(.,.,16)` -/
+def strip0x (s : Bytes) : Bytes :=
+  match s with
+  | 48 :: x :: t => if x = 120 ∨ x = 88 then t else s
+  | _ => s
+
 /-- `strtoul(s, NULL, 16)` for a short NUL-free string: optional white space, sign, `0x`, hex digits;
     result as an `unsigned long` (64 bit) -/
 def strtoul16 (s : Bytes) : Nat :=
-  let s := s.dropWhile isCSpace
-  let (neg, s) := match s with
-    | 45 :: t => (true, t)
-    | 43 :: t => (false, t)
-    | _ => (false, s)
-  let s := match s with
-    | 48 :: x :: t => if x = 120 ∨ x = 88 then t else s
-    | _ => s
-  let v := hexPrefixVal s 0
-  if neg then (2 ^ 64 - v) % 2 ^ 64 else v
+  let r := splitSign (s.dropWhile isCSpace)
+  let v := hexPrefixVal (strip0x r.2) 0
+  if r.1 then (2 ^ 64 - v) % 2 ^ 64 else v
 
 /-- `(wchar_t)` of an `unsigned long` where `wchar_t` is a signed 32-bit integer -/
 def toWchar (v : Nat) : Int :=
